@@ -275,7 +275,7 @@ func main() {
 	if err := os.MkdirAll(root, 0o755); err != nil {
 		vh.Die("mkdir: %v", err)
 	}
-	// loopback fake of the HAProxy admin / health API (always 200; the health check needs a non-empty body)
+	// loopback fake of the HAProxy admin / health API (always 200)
 	ln, err := net.Listen("tcp", ":"+os.Getenv("HAPROXY_MANAGE_ENDPOINTS_PORT"))
 	if err != nil {
 		fmt.Fprintf(os.Stderr, "harness: port clash: %v\n", err)
@@ -284,7 +284,11 @@ func main() {
 	go http.Serve(ln, http.HandlerFunc(func(w http.ResponseWriter, r *http.Request) { //nolint:errcheck
 		io.Copy(io.Discard, r.Body)
 		w.WriteHeader(200)
-		w.Write([]byte("OK\n"))
+		if strings.HasPrefix(r.URL.Path, "/healthcheck") {
+			w.Write([]byte("OK\n")) // the engine's health check fails on an empty body
+		}
+		// admin calls get an empty body: the engine never closes these responses, an unread body would pin one
+		// connection (and file descriptor) per call
 	}))
 
 	g := &gw{root: root}
